@@ -38,6 +38,8 @@ struct SimConfig
   long starve_from, starve_len; // decision window in which the victim is not picked
   int  preempt_budget;     // preemptions injected *inside* task bodies, at calls of operator new made by the program
   int  preempt_gap_log2;   // gaps between them are 2^U(0..preempt_gap_log2) allocations
+  int  first_use_delay;    // a thread that requests a mutex nobody has requested before (lazy initialisation guarded by a
+                           // fresh lock) is not picked for this many decisions while another thread is enabled; 0 = off
   int  nprocs;             // what sysconf(_SC_NPROCESSORS_ONLN) returns
   long max_steps;          // bounded-progress cap on scheduler decisions
   int  stall_seconds;      // real-time watchdog (infrastructure error, exit 2)
@@ -54,6 +56,7 @@ struct SimStats
   long signal_choices;        // cond_signal with >= 2 waiters (recipient was a choice)
   long spurious_fired;
   long starve_skips;          // decisions in which the victim was enabled but excluded
+  long first_use_delays;      // threads held back at the first request of a mutex
   long lock_contended;        // lock requested while owned by another thread
   long preemptions;           // scheduling points taken inside task bodies (at operator new)
   long allocations_seen;
